@@ -45,6 +45,8 @@ pub struct Outcome {
     pub saved_debug: Option<String>,
     /// refresh_node_registry ran to completion in this invocation
     pub refreshed: bool,
+    /// the registry as the refresh at the start of the invocation left it (before the operation proper)
+    pub after_refresh: Option<Value>,
     /// number of OS/RPC calls made when the registry was last saved in this invocation
     pub last_save_seq: Option<u32>,
     /// names returned by add_node
@@ -245,6 +247,11 @@ pub fn contact_urls(n: u8) -> Vec<String> {
     CONTACT_URLS.iter().take(n as usize).map(|s| s.to_string()).collect()
 }
 
+/// The process-wide XDG_DATA_HOME set in main().
+pub fn xdg_dir() -> String {
+    std::env::var("XDG_DATA_HOME").unwrap_or_else(|_| "/nonexistent-xdg".into())
+}
+
 impl<'a> World<'a> {
     pub fn log(&mut self, s: impl AsRef<str>) {
         let root = self.root.to_string_lossy().to_string();
@@ -253,7 +260,7 @@ impl<'a> World<'a> {
     }
 
     pub fn san(&self, s: &str) -> String {
-        s.replace(self.root.to_string_lossy().as_ref(), "<root>")
+        s.replace(self.root.to_string_lossy().as_ref(), "<root>").replace(xdg_dir().as_str(), "<xdg>")
     }
 
     pub fn data_base(&self, o: &AddOpts) -> PathBuf {
@@ -265,6 +272,10 @@ impl<'a> World<'a> {
     }
 
     pub fn log_base(&self, o: &AddOpts) -> PathBuf {
+        if o.user_mode && o.default_log {
+            // what antctl uses when no --log-dir-path is given in user mode
+            return nm_config::get_user_antnode_data_dir().expect("user data dir");
+        }
         if o.same_dir {
             self.root.join("shared")
         } else {
@@ -733,6 +744,7 @@ impl<'a> World<'a> {
             return out.fail(format!("refresh: {e}"));
         }
         out.refreshed = true;
+        out.after_refresh = Self::snapshot(&reg);
         let indices = match Self::services_for_ops(&reg, &Self::sel_names(&reg, sel)) {
             Ok(v) => v,
             Err(e) => return out.fail(e),
@@ -784,6 +796,7 @@ impl<'a> World<'a> {
             return out.fail(format!("refresh: {e}"));
         }
         out.refreshed = true;
+        out.after_refresh = Self::snapshot(&reg);
         let indices = match Self::services_for_ops(&reg, &Self::sel_names(&reg, sel)) {
             Ok(v) => v,
             Err(e) => return out.fail(e),
@@ -829,6 +842,7 @@ impl<'a> World<'a> {
             return out.fail(format!("refresh: {e}"));
         }
         out.refreshed = true;
+        out.after_refresh = Self::snapshot(&reg);
         let indices = match Self::services_for_ops(&reg, &Self::sel_names(&reg, sel)) {
             Ok(v) => v,
             Err(e) => return out.fail(e),
@@ -883,6 +897,7 @@ impl<'a> World<'a> {
             return out.fail(format!("refresh: {e}"));
         }
         out.refreshed = true;
+        out.after_refresh = Self::snapshot(&reg);
         if reg.nodes.is_empty() {
             // the glue evaluates node_registry.nodes[0] inside a debug!() at this point
             self.rep.probe("upgrade_on_empty_registry(glue indexes nodes[0] in debug!)");
@@ -979,6 +994,8 @@ impl<'a> World<'a> {
                 return out.fail(format!("refresh: {e}"));
             }
             out.refreshed = true;
+            out.after_refresh = Self::snapshot(&reg);
+        out.after_refresh = Self::snapshot(&reg);
             if let Err(e) = reg.save() {
                 return out.fail(format!("registry save: {e}"));
             }
